@@ -319,7 +319,7 @@ Proof.
       destruct (N.eqb app (pm_app m)) eqn:E.
       * destruct (existsb (registered inv) (pm_tokens m)) eqn:X.
         -- (* already known: nothing changes, and it is pending *)
-           cbn [spec_ops op_ok pending_after Z.eqb]. rewrite E. cbn [andb].
+           cbn [spec_ops op_ok pending_after Z.eqb Pos.eqb]. rewrite E. cbn [andb].
            apply IH; [|exact Hn|exact Ok].
            assert (M : mem_n inv pending = true).
            { rewrite existsb_cntr in X. pose proof (ag_count _ _ _ _ A inv) as C.
@@ -331,7 +331,7 @@ Proof.
            ++ intros i Hi. rewrite mem_n_cons in Hi. apply orb_true_iff in Hi. destruct Hi as [Hi|Hi]; [|apply (ag_ids _ _ _ _ A); exact Hi].
               apply N.eqb_eq in Hi. subst i. apply (ag_ids _ _ _ _ A). exact M.
         -- (* registered now *)
-           cbn [spec_ops op_ok pending_after Z.eqb]. rewrite E. cbn [andb].
+           cbn [spec_ops op_ok pending_after Z.eqb Pos.eqb]. rewrite E. cbn [andb].
            change (pm_app m) with (pm_app (push m (TkInvite inv) (TInvite inv app signer))).
            apply IH; [|exact Hn|exact Ok].
            assert (NP : mem_n inv pending = false).
